@@ -589,3 +589,35 @@ def every_type_kind_schema(name="all_kinds"):
     e2.attrs.append(Attr("s", TRef(sel)))
     e2.attrs.append(Attr("q", TRef(en2)))
     return SchemaFile([s])
+
+
+def every_bound_shape_schema(name="all_bounds"):
+    """deterministic schema with one defined aggregate type / attribute per bound shape exp2cxx distinguishes"""
+    s = Schema(name)
+    s.add(OtherDecl("CONSTANT", "kk", "CONSTANT\n  kk : INTEGER := 7;\nEND_CONSTANT;", names=["kk"]))
+    one = Bound("lit", "1", value=1)
+    def ty(n, lo, hi, agg="LIST"):
+        return s.add(TypeDecl(n, TAgg(agg, lo, hi, TSimple("INTEGER"))))
+    ty("tb_lit", one, Bound("lit", "3", value=3), "ARRAY")
+    ty("tb_inf", Bound("lit", "0", value=0), Bound("inf", "?"))
+    ty("tb_neg", Bound("neg", "-2"), Bound("lit", "3", value=3), "ARRAY")
+    ty("tb_arith", one, Bound("arith", "2 + 3"))
+    ty("tb_const", one, Bound("const", "kk", name="kk"))
+    ty("tb_const_lo", Bound("const", "kk", name="kk"), Bound("inf", "?"))
+    ty("tb_fun", one, Bound("funcall", "ff(2)", name="ff"))
+    e0 = s.add(EntityDecl("eb_zero"))
+    e0.attrs.append(Attr("n", TSimple("INTEGER")))
+    e1 = s.add(EntityDecl("eb_one"))
+    e1.supers = [e0]
+    e1.attrs += [Attr("m", TSimple("INTEGER")),
+                 Attr("d", TSimple("INTEGER"), derived="m - 1"),
+                 Attr("a_attr", TAgg("ARRAY", Bound("lit", "0", value=0), Bound("attr", "m", name="m"), TSimple("REAL"))),
+                 Attr("a_der", TAgg("ARRAY", Bound("lit", "0", value=0), Bound("derived", "d", name="d"), TSimple("REAL"))),
+                 Attr("a_self", TAgg("ARRAY", one, Bound("self", "SELF\\eb_zero.n", name="n"), TSimple("REAL"))),
+                 Attr("a_expr", TAgg("LIST", one, Bound("arith", "m + 1"), TSimple("REAL")))]
+    for a in e0.attrs:
+        a.owner = e0
+    for a in e1.attrs:
+        a.owner = e1
+    s.add(OtherDecl("FUNCTION", "ff", "FUNCTION ff(x : INTEGER) : INTEGER;\n  RETURN (x);\nEND_FUNCTION;"))
+    return SchemaFile([s])
